@@ -673,6 +673,13 @@ func (g *graph) compile(ctx context.Context, opt *graphCompileOptions) (*composa
 		}
 	}
 
+	// the pre-node handlers of this compilation: the graph's own table is shared with the runnables
+	// compiled earlier and must not be changed by compiling again
+	handlerPreNode := make(map[string][]handlerPair, len(g.handlerPreNode))
+	for key, hs := range g.handlerPreNode {
+		handlerPreNode[key] = hs
+	}
+
 	for key := range g.fieldMappingRecords {
 		// not allowed to map multiple fields to the same field
 		toMap := make(map[string]bool)
@@ -684,7 +691,9 @@ func (g *graph) compile(ctx context.Context, opt *graphCompileOptions) (*composa
 		}
 
 		// add map to input converter
-		g.handlerPreNode[key] = append(g.handlerPreNode[key], g.getNodeGenericHelper(key).inputFieldMappingConverter)
+		hs := make([]handlerPair, 0, len(handlerPreNode[key])+1)
+		hs = append(hs, handlerPreNode[key]...)
+		handlerPreNode[key] = append(hs, g.getNodeGenericHelper(key).inputFieldMappingConverter)
 	}
 
 	key2SubGraphs := g.beforeChildGraphsCompile(opt)
@@ -780,7 +789,7 @@ func (g *graph) compile(ctx context.Context, opt *graphCompileOptions) (*composa
 		genericHelper: g.genericHelper,
 
 		preBranchHandlerManager: &preBranchHandlerManager{h: g.handlerPreBranch},
-		preNodeHandlerManager:   &preNodeHandlerManager{h: g.handlerPreNode},
+		preNodeHandlerManager:   &preNodeHandlerManager{h: handlerPreNode},
 		edgeHandlerManager:      &edgeHandlerManager{h: g.handlerOnEdges},
 	}
 
